@@ -225,18 +225,18 @@ Prog(f) ==
     [] f = "A_WCSV"  -> MgrRemove \o <<Gate("wallet.script"), Call("AddWaitForCsvTx"), Set("nev", "NoOp"), Ret>>
     [] f = "A_CCSV"  -> MgrRemove \o <<Gate("wallet.csv"), Gate("wallet.label"), Set("nev", "succ"), Ret>>
     [] f = "A_CCOOP" -> MgrRemove \o <<Gate("wallet.coop")>>
-                        \o IfElse("fltCoop", <<Acc(SE, V("Data.err", "w")), Set("nev", "failed")>>, <<Gate("wallet.label"), Set("nev", "succ")>>) \o <<Ret>>
-    [] f = "A_DCSV"  -> <<Acq("P"), Acc("policy.(*Policy).AddToSuspiciousPeerList", V("pol.lists", "r")),
-                          Acc("policy.(*Policy).ReloadFile", {<<"pol.allow", "w">>, <<"pol.lists", "w">>, <<"pol.path", "w">>}), Rel("P")>>
+                        \o IfElse("fltCoop", <<Acc("@", V("Data.err", "w")), Set("nev", "failed")>>, <<Gate("wallet.label"), Set("nev", "succ")>>) \o <<Ret>>
+    [] f = "A_DCSV"  -> <<Acq("P"), Acc("policy.(*Policy).<setter>", V("pol.lists", "r")),
+                          Acc("policy.(*Policy).ReloadFile<setter", {<<"pol.allow", "w">>, <<"pol.lists", "w">>, <<"pol.path", "w">>}), Rel("P")>>
                         \o MgrRemove \o <<Set("nev", "Done"), Ret>>
     [] f \in {"A_DCOOP", "A_DPRE"} -> MgrRemove \o <<Set("nev", "Done"), Ret>>
     [] f = "A_CANC"  -> <<Set("nev", "Done"), Ret>>
     [] f = "A_SCANC" -> <<Gate("msg.send"), Set("nev", "succ"), Ret>>
     [] f = "A_ATC"   -> IfThen("inReceiver", MgrRemove) \o <<Gate("ln.decode")>> \o Height
                         \o <<Gate("wallet.script"), Call("AddWaitForConfTx"), Set("nev", "NoOp"), Ret>>
-    [] f = "A_VPAY"  -> <<Gate("validate")>> \o Height \o <<Gate("ln.payclaim"), Acc(SE, V("Data.misc", "w")), Set("nev", "succ"), Ret>>
-    [] f = "A_CLAIM" -> <<Gate("wallet.preimage"), Gate("wallet.label"), Acc(SE, V("Data.misc", "w")), Set("nev", "succ"), Ret>>
-    [] f = "A_SPRIV" -> <<Acc(SE, V("Data.next", "w")), Set("nev", "succ"), Ret>>
+    [] f = "A_VPAY"  -> <<Gate("validate")>> \o Height \o <<Gate("ln.payclaim"), Acc("@", V("Data.misc", "w")), Set("nev", "succ"), Ret>>
+    [] f = "A_CLAIM" -> <<Gate("wallet.preimage"), Gate("wallet.label"), Acc("@", V("Data.misc", "w")), Set("nev", "succ"), Ret>>
+    [] f = "A_SPRIV" -> <<Acc("@", V("Data.next", "w")), Set("nev", "succ"), Ret>>
     [] f = "A_SCOOP" -> <<Gate("msg.send"), Set("nev", "succ"), Ret>>
     \* ---- RPC / policy commands, new swaps
     [] f = "SwapOut" ->     \* SwapService.SwapOut for a NEW swap on another channel
@@ -248,13 +248,30 @@ Prog(f) ==
           Acq("M2"), Gate("persist")>>
         \o IfThen("lbtc", Height)                        \* CreateSwapRequestAction: setLiquidPaymentWindowAnchor
         \o <<Gate("persist"), Gate("msg.send"), Gate("persist"), Gate("persist"), Rel("M2"), Ret>>
-    [] f = "PolSet" ->      \* DisableSwaps / EnableSwaps / AddToAllowlist ... : setter under the package mutex
-        <<Acq("P"), Acc("policy.(*Policy).DisableSwaps", V("pol.allow", "r")),
-          Acc("policy.(*Policy).ReloadFile", {<<"pol.allow", "w">>, <<"pol.lists", "w">>, <<"pol.min", "w">>, <<"pol.path", "w">>}), Rel("P"), Ret>>
+    [] f = "OnReq" ->       \* OnMessageReceived(swap_in_request) of a NEW swap on another channel
+        <<Acq("SW"), Acc("swap.(*SwapService).logMsg", V("lastMsgLog", "w")), Rel("SW")>>
+        \o GetActive                                     \* swapIdKnown
+        \o <<Gate("ln.canspend"), Gate("ln.spendable"), Gate("ln.probe"),
+             Acq("SW"), Acc("swap.(*SwapService).lockSwap", {<<"activeSwaps", "r">>, <<"Data.req", "r">>, <<"activeSwaps", "w">>}), Rel("SW"),
+             Acq("M2"), Gate("persist"),
+             \* CheckRequestWrapperAction
+             Acc("policy.(*Policy).NewSwapsAllowed", V("pol.allow", "r")),
+             Acq("P"), Acc("policy.(*Policy).GetMinSwapAmountMsat", V("pol.min", "r")), Rel("P"),
+             Acq("P"), Acc("policy.(*Policy).IsPeerAllowed", V("pol.lists", "r")), Rel("P"),
+             Acq("P"), Acc("policy.(*Policy).IsPeerSuspicious", V("pol.lists", "r")), Rel("P")>>
+        \o IfThen("lbtc", Height)                        \* SwapInReceiverInitAction: setLiquidPaymentWindowAnchor
+        \o <<Gate("persist"), Gate("msg.send"), Gate("persist")>> \o Height \o <<Gate("persist"), Rel("M2"), Ret>>
+    [] f = "PolSet" ->      \* a policy setter (DisableSwaps, EnableSwaps, AddTo/RemoveFrom Allowlist / SuspiciousPeerList): package mutex, then ReloadFile
+        <<Acq("P"),
+          Acc("policy.(*Policy).<setter>", {<<"pol.allow", "r">>, <<"pol.lists", "r">>, <<"pol.path", "r">>}),      \* the setter's own precondition reads
+          Acc("policy.(*Policy).ReloadFile<setter", {<<"pol.allow", "w">>, <<"pol.lists", "w">>, <<"pol.min", "w">>, <<"pol.path", "w">>}), Rel("P"), Ret>>
     [] f = "PolReload" ->   \* ReloadFile called directly (peerswaprpc ReloadPolicyFile): no mutex
-        <<Acc("policy.(*Policy).ReloadFile", {<<"pol.path", "r">>, <<"pol.allow", "w">>, <<"pol.lists", "w">>, <<"pol.min", "w">>, <<"pol.path", "w">>}), Ret>>
+        \* pol.elems: the elements of the freshly parsed lists. A setter publishes them under mu (ordered with every later Get);
+        \* ReloadFile called directly publishes them unordered, so a reader of a copy obtained by Get() races with their initialisation
+        <<Acc("policy.(*Policy).ReloadFile", {<<"pol.path", "r">>, <<"pol.allow", "w">>, <<"pol.lists", "w">>, <<"pol.min", "w">>, <<"pol.path", "w">>, <<"pol.elems", "w">>}), Ret>>
     [] f = "PolGet" ->
         <<Acq("P"), Acc("policy.(*Policy).Get", {<<"pol.allow", "r">>, <<"pol.lists", "r">>, <<"pol.min", "r">>}), Rel("P"),
+          Acc("policy.(*Policy).String", V("pol.elems", "r")),          \* the caller formats / marshals the copy outside the mutex
           Acc("policy.(*Policy).NewSwapsAllowed", V("pol.allow", "r")), Ret>>
     [] f = "Recover" ->     \* SwapService.RecoverSwaps: one goroutine per stored swap, then wg.Wait()
         <<Spawn("rec", "RecoverOne"), I("join", "rec", "", 0), Ret>>
@@ -291,6 +308,7 @@ EntryFrame(e) ==
     [] e = "notify_obs"   -> Frame("DeliverH", "-")
     [] e = "rpc_resend"   -> Frame("Resend", "-")
     [] e = "rpc_swapout"  -> Frame("SwapOut", "-")
+    [] e = "msg_req"      -> Frame("OnReq", "-")
     [] e = "pol_set"      -> Frame("PolSet", "-")
     [] e = "pol_reload"   -> Frame("PolReload", "-")
     [] e = "pol_get"      -> Frame("PolGet", "-")
@@ -343,7 +361,7 @@ ApplySet(s, p, k, v) ==
     [] k = "active" -> [s EXCEPT !.active = (v = "T")]
     [] k = "st"     -> [s EXCEPT !.st = NextSt(s.cfg.role, s.st, Top(s, p).ev)]
     [] k = "ev"     -> SetTop(s, p, [Top(s, p) EXCEPT !.ev = s.nev[p]])
-    [] k = "csvN"   -> [s EXCEPT !.csvN = IF v = "+1" THEN (IF @ < 2 THEN @ + 1 ELSE @) ELSE IF v = "1" THEN 1 ELSE 0]
+    [] k = "csvN"   -> [s EXCEPT !.csvN = IF v = "+1" THEN (IF @ < 3 THEN @ + 1 ELSE @) ELSE IF v = "1" THEN 1 ELSE 0]
     [] k = "confN"  -> [s EXCEPT !.confN = IF v = "1" THEN 1 ELSE 0]
     [] k = "hdr"    -> [s EXCEPT !.hdr = s.d, !.hcf = s.cf, !.fresh = FALSE]
     [] k = "hk"     -> [s EXCEPT !.hk[p] = s.mined]
@@ -414,11 +432,16 @@ Step(s, p) == Fuse(Exec(s, p), p)
 (* process pass the gate it is parked at and run to its next gate / block /  *)
 (* return; every other process that becomes able to move (spawned, or woken  *)
 (* by a released lock) then runs to ITS next gate, in any order.             *)
-RECURSIVE Run(_, _)
-Run(s, p) == IF ~Running(s, p) \/ ~Enabled(s, p) \/ AtGate(s, p) THEN s ELSE Run(Exec(s, p), p)
+(* Between gates the goroutines run freely: all interleavings of their lock  *)
+(* and channel operations are possible (e.g. who gets a mutex that was just  *)
+(* released), so a macro step has a SET of outcomes.                         *)
+Sync(in) == in.op \in {"acq", "rel", "racq", "rrel", "send", "recv", "spawn", "join", "gate"}
+RECURSIVE RunL(_, _)
+RunL(s, p) == IF ~Running(s, p) \/ Sync(Ins(s, p)) THEN s ELSE RunL(Exec(s, p), p)
+StepS(s, p) == RunL(Exec(s, p), p)
 Movable(s) == {r \in Procs : Running(s, r) /\ Enabled(s, r) /\ ~AtGate(s, r)}
 RECURSIVE SettleSet(_)
-SettleSet(s) == IF Movable(s) = {} THEN {s} ELSE UNION {SettleSet(Run(s, r)) : r \in Movable(s)}
+SettleSet(s) == IF Movable(s) = {} THEN {s} ELSE UNION {SettleSet(StepS(s, r)) : r \in Movable(s)}
 
 \* ---------------------------------------------------------------- configurations
 (* cfg: watcher ("rpc" | "el"), role, prep (abstract state the prepared swap  *)
@@ -434,7 +457,7 @@ InitState(cfg) ==
    csvN |-> IF cfg.restart THEN 0 ELSE IF cfg.prep = "ACP" THEN 1 ELSE IF cfg.prep = "WCSV" THEN (IF cfg.watcher = "el" THEN 2 ELSE 1) ELSE 0,
    confN |-> IF cfg.prep = "ATC" /\ ~cfg.restart /\ cfg.watcher = "el" THEN 1 ELSE 0,
    d |-> cfg.d0, hdr |-> 0, cf |-> FALSE, hcf |-> FALSE, hk |-> [p \in Procs |-> 0],
-   hobs |-> 0, lastH |-> IF cfg.prep = "ATC" THEN 0 ELSE 0 - 1,   \* height (in blocks mined during the run) last offered to / processed by the observation loop
+   hobs |-> 0, lastH |-> IF cfg.prep = "ATC" /\ ~cfg.restart THEN 0 ELSE 0 - 1,   \* height (in blocks mined during the run) last offered to / processed by the observation loop
    app |-> IF cfg.prep = "ATC" THEN {"opening"} ELSE {},
    fresh |-> cfg.prep \in {"ACP", "WCSV"} /\ ~cfg.restart,      \* blocks the watcher has not been told about yet
    nev |-> [p \in Procs |-> "-"], done |-> [p \in Procs |-> FALSE], rm |-> [p \in Procs |-> "F"],
@@ -464,8 +487,13 @@ DeadlockClass(s) == {WaitOf(s, p) : p \in Unreturned(s)}
 \* locks protecting an access of p: mutexes it owns; the service lock in read mode protects reads only
 LockSet(s, p, mode) == {m \in Mutexes : s.own[m] = p} \cup (IF mode = "r" /\ s.rd[p] > 0 THEN {"SW"} ELSE {})
 AccessesOf(s, p) == IF Running(s, p) /\ Ins(s, p).op = "acc" THEN Ins(s, p).b ELSE {}
+\* the function an access is attributed to: actions run inside SendEvent (swap mutex held) or inside Recover (not held)
+SiteOf(s, p) ==
+  IF Ins(s, p).a # "@" THEN Ins(s, p).a
+  ELSE LET ks == {k \in 1..Len(s.stk[p]) : s.stk[p][k].f \in {"SendEvent", "RecoverOne"}} IN
+       IF ks = {} THEN "?" ELSE IF s.stk[p][CHOOSE k \in ks : \A j \in ks : j <= k].f = "SendEvent" THEN SE ELSE "swap.(*SwapStateMachine).Recover"
 RacePQ(s, p, q) ==
-  {[a |-> Ins(s, p).a, b |-> Ins(s, q).a, v |-> x[1]] :
+  {[a |-> SiteOf(s, p), b |-> SiteOf(s, q), v |-> x[1]] :
      x \in {x \in AccessesOf(s, p) : \E y \in AccessesOf(s, q) :
                 /\ y[1] = x[1] /\ (x[2] = "w" \/ y[2] = "w")
                 /\ LockSet(s, p, x[2]) \cap LockSet(s, q, y[2]) = {}}}
